@@ -391,34 +391,7 @@ theorem C17_last_wins_lossy (c : Lossy.Copyright) (path : Str)
     cases b <;> simp [hb]
 
 
-/-! ## the property's domain (`Spec.wellFormed`) -/
-
-theorem wf_split {c : Doc} (hwf : Spec.wellFormed c = true) :
-    ∃ h rest, c = h :: rest ∧ h.get kFiles = none ∧ h.get kLicense = none ∧
-      ∀ p ∈ rest, Spec.wellFormedPara p = true := by
-  cases c with
-  | nil => simp [Spec.wellFormed] at hwf
-  | cons h rest =>
-    simp only [Spec.wellFormed, Bool.and_eq_true, List.all_eq_true,
-      Option.isNone_iff_eq_none] at hwf
-    exact ⟨h, rest, rfl, hwf.1.1.2, hwf.1.2, hwf.2⟩
-
-theorem wfp_files {p : Para} (hw : Spec.wellFormedPara p = true) {f : Str}
-    (hf : p.get kFiles = some f) :
-    ∃ l, p.get kLicense = some l ∧ ∀ g ∈ splitWhitespace f, validEscapes g = true := by
-  cases hL : p.get kLicense with
-  | none => simp [Spec.wellFormedPara, hf, hL] at hw
-  | some l =>
-    simp only [Spec.wellFormedPara, hf, hL, Bool.and_eq_true, List.all_eq_true] at hw
-    exact ⟨l, rfl, hw.2⟩
-
-theorem wfp_lic {p : Para} (hw : Spec.wellFormedPara p = true) (hf : p.get kFiles = none) :
-    ∃ l, p.get kLicense = some l ∧ l.head? ≠ some '\n' := by
-  cases hL : p.get kLicense with
-  | none => simp [Spec.wellFormedPara, hf, hL] at hw
-  | some l =>
-    simp only [Spec.wellFormedPara, hf, hL, Bool.and_eq_true, bne_iff_ne, ne_eq] at hw
-    exact ⟨l, rfl, hw.2⟩
+/-! ## paragraph-list helpers -/
 
 theorem mem_filesParas {c : Doc} {p : Para} (h : p ∈ Spec.filesParas c) :
     p ∈ c ∧ ∃ f, p.get kFiles = some f := by
@@ -432,47 +405,81 @@ theorem mem_standalone {c : Doc} {p : Para} (h : p ∈ Spec.standalone c) :
     Option.isSome_iff_exists] at h
   exact ⟨h.1, h.2.1, h.2.2⟩
 
-/-- a Files paragraph of a well-formed file: has a License, all its patterns have valid escapes -/
-theorem wf_files {c : Doc} (hwf : Spec.wellFormed c = true) {fp : Para}
-    (hfp : fp ∈ Spec.filesParas c) :
-    ∃ f l, fp.get kFiles = some f ∧ fp.get kLicense = some l ∧
-      ∀ g ∈ splitWhitespace f, validEscapes g = true := by
-  obtain ⟨h, rest, rfl, hF, _, hrest⟩ := wf_split hwf
-  obtain ⟨hm, f, hf⟩ := mem_filesParas hfp
-  rcases List.mem_cons.1 hm with e | hm
-  · subst e; rw [hF] at hf; cases hf
-  · obtain ⟨l, hl, hv⟩ := wfp_files (hrest fp hm) hf
-    exact ⟨f, l, hf, hl, hv⟩
+theorem filterO_mem {α} (f : α → Outcome Bool) (l r : List α) (h : filterO f l = .ok r) :
+    ∀ x ∈ r, x ∈ l := by
+  induction l generalizing r with
+  | nil => simp only [filterO, Outcome.ok.injEq] at h; subst h; simp
+  | cons a as ih =>
+    unfold filterO at h
+    cases hfa : f a with
+    | panic s => simp [hfa] at h
+    | ok b =>
+      cases hr : filterO f as with
+      | panic s => simp [hfa, hr] at h
+      | ok r' =>
+        simp only [hfa, hr, Outcome.ok.injEq] at h
+        subst h
+        intro x hx
+        cases b with
+        | true =>
+          simp only [if_true, List.mem_cons] at hx
+          rcases hx with e | hx
+          · simp [e]
+          · exact List.mem_cons_of_mem _ (ih r' hr x hx)
+        | false =>
+          simp only [Bool.false_eq_true, if_false] at hx
+          exact List.mem_cons_of_mem _ (ih r' hr x hx)
 
-/-- a stand-alone licence paragraph of a well-formed file: its name (first line) is not empty -/
-theorem wf_standalone {c : Doc} (hwf : Spec.wellFormed c = true) {p : Para}
-    (hp : p ∈ Spec.standalone c) :
-    ∃ l, p.get kLicense = some l ∧ l.head? ≠ some '\n' := by
-  obtain ⟨h, rest, rfl, _, hL, hrest⟩ := wf_split hwf
-  obtain ⟨hm, hf, l, hl⟩ := mem_standalone hp
-  rcases List.mem_cons.1 hm with e | hm
-  · subst e; rw [hL] at hl; cases hl
-  · exact wfp_lic (hrest p hm) hf
+/-! ## the property's domain (`Spec.wellFormed` = shape ∧ header only ∧ licences named ∧ valid escapes) -/
 
-/-- **C17, lookup.** On a well-formed file the lossless `find_files` returns exactly "the last
-    Files paragraph, in file order, one of whose whitespace-separated patterns matches". -/
-theorem C17_find_files_spec (c : Doc) (path : Str) (hwf : Spec.wellFormed c = true) :
+theorem wf_parts {c : Doc} (hwf : Spec.wellFormed c = true) :
+    Spec.lossyShape c = true ∧ Spec.headerOnly c = true ∧ Spec.licenceNamed c = true ∧
+      Spec.patternsValid c = true := by
+  simp only [Spec.wellFormed, Bool.and_eq_true] at hwf
+  exact ⟨hwf.1.1.1, hwf.1.1.2, hwf.1.2, hwf.2⟩
+
+theorem patternsValid_mem {c : Doc} (hv : Spec.patternsValid c = true) {fp : Para}
+    (hfp : fp ∈ Spec.filesParas c) {f : Str} (hf : fp.get kFiles = some f) :
+    ∀ g ∈ splitWhitespace f, validEscapes g = true := by
+  simp only [Spec.patternsValid, List.all_eq_true] at hv
+  have := hv fp hfp
+  simpa [Spec.patterns, hf] using this
+
+/-- **C17, lookup.** When every pattern has valid escapes, the lossless `find_files` returns
+    exactly "the last Files paragraph, in file order, one of whose whitespace-separated patterns
+    matches" — on any paragraph list whatsoever. -/
+theorem C17_find_files_spec (c : Doc) (path : Str) (hv : Spec.patternsValid c = true) :
     Lossless.findFiles c path = .ok (Spec.findFiles c path) := by
   unfold Lossless.findFiles Spec.findFiles
   rw [filterO_ok _ (Spec.paraMatchesB · path)]
   · rfl
   · intro fp hfp
-    obtain ⟨f, _, hf, _, hv⟩ := wf_files hwf hfp
-    exact C17_matches_total fp f path hf hv
+    obtain ⟨_, f, hf⟩ := mem_filesParas hfp
+    exact C17_matches_total fp f path hf (patternsValid_mem hv hfp hf)
 
 /-- `Spec.paraMatchesB` is the declarative "one of its patterns matches" -/
-theorem C17_spec_matches (c : Doc) (path : Str) (hwf : Spec.wellFormed c = true) (hp : '\n' ∉ path)
-    (fp : Para) (hfp : fp ∈ Spec.filesParas c) :
+theorem C17_spec_matches (c : Doc) (path : Str) (hv : Spec.patternsValid c = true)
+    (hp : '\n' ∉ path) (fp : Para) (hfp : fp ∈ Spec.filesParas c) :
     Spec.paraMatchesB fp path = true ↔ ∃ g ∈ Spec.patterns fp, Matches g path := by
-  obtain ⟨f, _, hf, _, hv⟩ := wf_files hwf hfp
-  have := C17_matches_any fp f path hf hv hp
-  rw [C17_matches_total fp f path hf hv] at this
+  obtain ⟨_, f, hf⟩ := mem_filesParas hfp
+  have hval := patternsValid_mem hv hfp hf
+  have := C17_matches_any fp f path hf hval hp
+  rw [C17_matches_total fp f path hf hval] at this
   simpa [Spec.patterns, hf] using this
+
+theorem spec_found_mem {c : Doc} {path : Str} {fp : Para} (h : Spec.findFiles c path = some fp) :
+    fp ∈ Spec.filesParas c := by
+  unfold Spec.findFiles at h
+  exact (List.mem_filter.1 (List.mem_of_getLast? h)).1
+
+theorem lossless_found_mem {c : Doc} {path : Str} {fp : Para}
+    (h : Lossless.findFiles c path = .ok (some fp)) : fp ∈ Spec.filesParas c := by
+  unfold Lossless.findFiles at h
+  cases hr : filterO (Lossless.paraMatches · path) (Lossless.iterFiles c) with
+  | panic s => simp [hr, Outcome.map] at h
+  | ok r =>
+    simp only [hr, Outcome.map, Outcome.ok.injEq] at h
+    exact filterO_mem _ _ r hr fp (List.mem_of_getLast? h)
 
 /-! ## licences -/
 
@@ -511,9 +518,15 @@ theorem ofValue_noText {l : Str} (h : Spec.hasText l = false) : License.ofValue 
   | none => simp [License.ofValue, hs]
   | some r => simp [Spec.hasText, hs] at h
 
-/-- lossless `find_license_by_name`, when every stand-alone licence paragraph carries text -/
-theorem lossless_findByName_spec (c : Doc) (n : Str)
-    (htext : ∀ p ∈ Spec.standalone c, Spec.hasText ((p.get kLicense).getD []) = true) :
+/-- `LicenseParagraph::name()` (after d2a6901) is the first line of the License field -/
+theorem licName_eq (p : Para) : Lossless.licName p = (p.get kLicense).map Spec.firstLine := by
+  unfold Lossless.licName
+  cases p.get kLicense with
+  | none => rfl
+  | some x => simp only [Option.map_some, Spec.firstLine]
+
+/-- lossless `find_license_by_name` = the first stand-alone licence paragraph of that name -/
+theorem lossless_findByName_spec (c : Doc) (n : Str) :
     Lossless.findLicenseByName c n =
       .ok (match (Spec.standalone c).find? (fun p => (p.get kLicense).map Spec.firstLine == some n) with
         | none => none
@@ -521,24 +534,16 @@ theorem lossless_findByName_spec (c : Doc) (n : Str)
   unfold Lossless.findLicenseByName
   have hiter : Lossless.iterLicenses c = Spec.standalone c := rfl
   rw [hiter, find?_congr' (fun p => Lossless.licName p == some n)
-    (fun p => (p.get kLicense).map Spec.firstLine == some n)]
-  · cases hfind : (Spec.standalone c).find? (fun p => (p.get kLicense).map Spec.firstLine == some n) with
-    | none => rfl
-    | some p =>
-      obtain ⟨_, _, l, hl⟩ := mem_standalone (List.mem_of_find?_eq_some hfind)
-      simp [Lossless.intoLicense, hl, Outcome.map]
-  · intro p hp
-    obtain ⟨_, _, l, hl⟩ := mem_standalone hp
-    have ht := htext p hp
-    simp only [hl, Option.getD_some, Spec.hasText] at ht
-    cases hs : splitOnce '\n' l with
-    | none => simp [hs] at ht
-    | some r => simp [Lossless.licName, hl, hs, Spec.firstLine]
+    (fun p => (p.get kLicense).map Spec.firstLine == some n) _ (fun p _ => by rw [licName_eq])]
+  cases hfind : (Spec.standalone c).find? (fun p => (p.get kLicense).map Spec.firstLine == some n) with
+  | none => rfl
+  | some p =>
+    obtain ⟨_, _, l, hl⟩ := mem_standalone (List.mem_of_find?_eq_some hfind)
+    simp [Lossless.intoLicense, hl, Outcome.map]
 
 /-- lossless `find_license_for_file`, given what `find_files` returned -/
 theorem lossless_license_of_found (c : Doc) (path : Str) (o : Option Para)
-    (hf : Lossless.findFiles c path = .ok o)
-    (htext : ∀ p ∈ Spec.standalone c, Spec.hasText ((p.get kLicense).getD []) = true) :
+    (hf : Lossless.findFiles c path = .ok o) :
     Lossless.findLicenseForFile c path = .ok (o.bind (Spec.licenseFor c)) := by
   unfold Lossless.findLicenseForFile
   rw [hf]
@@ -554,8 +559,17 @@ theorem lossless_license_of_found (c : Doc) (path : Str) (o : Option Para)
       | true => simp
       | false =>
         simp only [ofValue_noText ht, License.name?, Bool.false_eq_true, if_false]
-        exact lossless_findByName_spec c l htext
+        exact lossless_findByName_spec c l
 
+/-- **C17, licence (lossless view).** Whatever the file: the licence of a file whose Files
+    paragraph is `fp` is `fp`'s own licence when it carries text, otherwise the first stand-alone
+    licence paragraph whose name (first line) is `fp`'s licence name. No hypothesis beyond
+    "`find_files` returned `fp`". (Before fix d2a6901 this needed "every stand-alone licence
+    paragraph carries text".) -/
+theorem C17_license (c : Doc) (path : Str) (fp : Para)
+    (hfound : Lossless.findFiles c path = .ok (some fp)) :
+    Lossless.findLicenseForFile c path = .ok (Spec.licenseFor c fp) :=
+  lossless_license_of_found c path (some fp) hfound
 
 /-! ## the lossy structs as functions of the paragraphs -/
 
@@ -572,7 +586,7 @@ def convL (p : Para) : Lossy.LicenseParagraph where
   comment := p.get kComment
 
 theorem filesOfPara_eq {p : Para} {f : Lossy.FilesParagraph}
-    (h : Lossy.FilesParagraph.ofPara p = .ok f) : f = convF p := by
+    (h : Lossy.FilesParagraph.ofPara p = .ok f) : f = convF p ∧ ∃ l, p.get kLicense = some l := by
   unfold Lossy.FilesParagraph.ofPara Lossy.required at h
   cases hF : p.get kFiles with
   | none => simp [hF] at h
@@ -585,7 +599,7 @@ theorem filesOfPara_eq {p : Para} {f : Lossy.FilesParagraph}
       | some cv =>
         simp only [hF, hL, hC, Except.ok.injEq] at h
         subst h
-        simp [convF, hF, hL, hC]
+        exact ⟨by simp [convF, hF, hL, hC], lv, rfl⟩
 
 theorem licOfPara_eq {p : Para} {l : Lossy.LicenseParagraph}
     (h : Lossy.LicenseParagraph.ofPara p = .ok l) : l = convL p := by
@@ -616,16 +630,18 @@ theorem standalone_cons_none {p : Para} {rest : Doc} (hl : p.get kLicense = none
   simp [Spec.standalone, Para.containsKey, hl]
 
 /-- the paragraph loop of the lossy reader, when it succeeds: Files paragraphs and stand-alone
-    licence paragraphs, each in file order, converted one by one -/
+    licence paragraphs, each in file order, converted one by one; every Files paragraph has a
+    License field -/
 theorem classify_spec (rest : List Para) :
     ∀ r, Lossy.classify rest = .ok r →
-      r.1 = (Spec.filesParas rest).map convF ∧ r.2 = (Spec.standalone rest).map convL := by
+      r.1 = (Spec.filesParas rest).map convF ∧ r.2 = (Spec.standalone rest).map convL ∧
+      ∀ p ∈ Spec.filesParas rest, ∃ l, p.get kLicense = some l := by
   induction rest with
   | nil =>
     intro r h
     simp only [Lossy.classify, Except.ok.injEq] at h
     subst h
-    exact ⟨rfl, rfl⟩
+    exact ⟨rfl, rfl, by simp [Spec.filesParas]⟩
   | cons p rest ih =>
     intro r h
     unfold Lossy.classify at h
@@ -640,9 +656,15 @@ theorem classify_spec (rest : List Para) :
         | ok r' =>
           simp only [hp, hc, Except.ok.injEq] at h
           subst h
-          obtain ⟨h1, h2⟩ := ih r' hc
+          obtain ⟨h1, h2, h3⟩ := ih r' hc
           obtain ⟨e1, e2⟩ := @filesParas_cons_some p rest fv hF
-          simp [e1, e2, h1, h2, filesOfPara_eq hp]
+          obtain ⟨ef, hlic⟩ := filesOfPara_eq hp
+          refine ⟨by simp [e1, h1, ef], by simp [e2, h2], ?_⟩
+          intro q hq
+          rw [e1] at hq
+          rcases List.mem_cons.1 hq with e | hq
+          · subst e; exact hlic
+          · exact h3 q hq
     | none =>
       simp only [hF, Option.isSome_none, Bool.false_eq_true, if_false] at h
       cases hL : p.get kLicense with
@@ -657,8 +679,10 @@ theorem classify_spec (rest : List Para) :
           | ok r' =>
             simp only [hp, hc, Except.ok.injEq] at h
             subst h
-            obtain ⟨h1, h2⟩ := ih r' hc
-            simp [filesParas_cons_none hF, standalone_cons_lic hF hL, h1, h2, licOfPara_eq hp]
+            obtain ⟨h1, h2, h3⟩ := ih r' hc
+            refine ⟨by simp [filesParas_cons_none hF, h1],
+              by simp [standalone_cons_lic hF hL, h2, licOfPara_eq hp], ?_⟩
+            rw [filesParas_cons_none hF]; exact h3
 
 /-- the loop never reports "not machine readable" -/
 theorem classify_not_nmr (rest : List Para) : Lossy.classify rest ≠ .error .notMachineReadable := by
@@ -669,56 +693,81 @@ theorem classify_not_nmr (rest : List Para) : Lossy.classify rest ≠ .error .no
     cases p.get kFiles <;> cases p.get kLicense <;> cases p.get kCopyright <;>
       cases hc : Lossy.classify rest <;> simp_all [Lossy.missing]
 
-/-- the loop succeeds on well-formed paragraphs -/
-theorem classify_total (rest : List Para) (h : ∀ p ∈ rest, Spec.wellFormedPara p = true) :
-    ∃ r, Lossy.classify rest = .ok r := by
+/-- the loop succeeds exactly on paragraphs of the two admitted shapes -/
+theorem classify_ok_iff (rest : List Para) :
+    (∃ r, Lossy.classify rest = .ok r) ↔ rest.all Spec.shapePara = true := by
   induction rest with
-  | nil => exact ⟨_, rfl⟩
+  | nil => simp [Lossy.classify]
   | cons p rest ih =>
-    obtain ⟨r', hr'⟩ := ih (fun x hx => h x (by simp [hx]))
-    have hw := h p (by simp)
-    unfold Lossy.classify
-    cases hF : p.get kFiles with
-    | some f =>
-      cases hL : p.get kLicense with
-      | none => simp [Spec.wellFormedPara, hF, hL] at hw
-      | some l =>
-        cases hC : p.get kCopyright with
-        | none => simp [Spec.wellFormedPara, hF, hL, hC] at hw
-        | some cv =>
-          simp [Lossy.FilesParagraph.ofPara, Lossy.required, hF, hL, hC, hr']
-    | none =>
-      cases hL : p.get kLicense with
-      | none => simp [Spec.wellFormedPara, hF, hL] at hw
-      | some l => simp [Lossy.LicenseParagraph.ofPara, Lossy.required, hL, hr']
+    unfold Lossy.classify Lossy.FilesParagraph.ofPara Lossy.LicenseParagraph.ofPara Lossy.required
+    simp only [List.all_cons, Bool.and_eq_true, ← ih]
+    cases hF : p.get kFiles <;> cases hL : p.get kLicense <;> cases hC : p.get kCopyright <;>
+      cases hc : Lossy.classify rest <;> simp [Spec.shapePara, hF, hL, hC]
 
-/-- the lossy reader accepts every well-formed file, and what it stores -/
-theorem lossy_fromStr_wf (read : Str → Option Doc) (s : Str) (c : Doc) (hg : gate s = true)
-    (hr : read s = some c) (hwf : Spec.wellFormed c = true) :
-    ∃ cr, Lossy.fromStr read s = .ok cr ∧ cr.files = (Spec.filesParas c).map convF ∧
-      cr.licenses = (Spec.standalone c).map convL := by
-  obtain ⟨h, rest, rfl, hF, hL, hrest⟩ := wf_split hwf
-  have hfmt : ∃ f, h.get kFormat = some f := by
-    simp only [Spec.wellFormed, Bool.and_eq_true, Option.isSome_iff_exists] at hwf
-    exact hwf.1.1.1
-  obtain ⟨f, hf⟩ := hfmt
-  obtain ⟨r, hcl⟩ := classify_total rest hrest
-  obtain ⟨h1, h2⟩ := classify_spec rest r hcl
-  refine ⟨{ header := { format := f,
-                         filesExcluded := (h.get kFilesExcluded).map Lossy.deserializeFileList,
-                         source := h.get kSource, upstreamContact := h.get kUpstreamContact },
-            files := r.1, licenses := r.2 }, ?_, ?_, ?_⟩
-  · simp [Lossy.fromStr, hg, hr, Lossy.Header.ofPara, Lossy.required, hf, hcl]
-  · simp [h1, filesParas_cons_none (p := h) (rest := rest) hF]
-  · simp [h2, standalone_cons_none (p := h) (rest := rest) hL]
+/-- what the lossy reader stores when it accepts a text -/
+theorem lossy_fromStr_inv (read : Str → Option Doc) (s : Str) (c : Doc) (cr : Lossy.Copyright)
+    (hr : read s = some c) (h : Lossy.fromStr read s = .ok cr) :
+    gate s = true ∧ ∃ hd rest, c = hd :: rest ∧
+      cr.files = (Spec.filesParas rest).map convF ∧ cr.licenses = (Spec.standalone rest).map convL ∧
+      ∀ p ∈ Spec.filesParas rest, ∃ l, p.get kLicense = some l := by
+  unfold Lossy.fromStr at h
+  cases hg : gate s with
+  | false => simp [hg] at h
+  | true =>
+    simp only [hg, Bool.not_true, Bool.false_eq_true, if_false, hr] at h
+    cases c with
+    | nil => simp at h
+    | cons hd rest =>
+      simp only at h
+      cases hh : Lossy.Header.ofPara hd with
+      | error e => simp [hh] at h
+      | ok hv =>
+        cases hc : Lossy.classify rest with
+        | error e => simp [hh, hc] at h
+        | ok r =>
+          simp only [hh, hc, Except.ok.injEq] at h
+          subst h
+          obtain ⟨h1, h2, h3⟩ := classify_spec rest r hc
+          exact ⟨rfl, hd, rest, rfl, h1, h2, h3⟩
 
-/-- **lossy `find_files` against the lossless one.** When every Files field splits the same way
-    on newlines as on whitespace, the lossy reader finds the conversion of the very paragraph the
-    lossless reader finds (panics included). -/
+/-- **which files the lossy reader accepts**: exactly the texts that pass the gate, parse, and
+    have the shape "header with Format, then Files paragraphs (with License and Copyright) and
+    stand-alone licence paragraphs" (`Spec.lossyShape`) -/
+theorem C17_lossy_accepts_iff (read : Str → Option Doc) (s : Str) :
+    (∃ cr, Lossy.fromStr read s = .ok cr) ↔
+      gate s = true ∧ ∃ c, read s = some c ∧ Spec.lossyShape c = true := by
+  unfold Lossy.fromStr
+  cases hg : gate s with
+  | false => simp
+  | true =>
+    simp only [Bool.not_true, Bool.false_eq_true, if_false, true_and]
+    cases hr : read s with
+    | none => simp
+    | some c =>
+      cases c with
+      | nil => simp [Spec.lossyShape]
+      | cons hd rest =>
+        simp only [Option.some.injEq, exists_eq_left', Spec.lossyShape, Bool.and_eq_true,
+          ← classify_ok_iff, Lossy.Header.ofPara, Lossy.required]
+        cases hf : hd.get kFormat with
+        | none => simp
+        | some f =>
+          cases hc : Lossy.classify rest with
+          | error e => simp
+          | ok r => simp
+
+theorem headerOnly_cons {hd : Para} {rest : Doc} (h : Spec.headerOnly (hd :: rest) = true) :
+    Spec.filesParas (hd :: rest) = Spec.filesParas rest ∧
+    Spec.standalone (hd :: rest) = Spec.standalone rest := by
+  simp only [Spec.headerOnly, Bool.and_eq_true, Option.isNone_iff_eq_none] at h
+  exact ⟨filesParas_cons_none h.1, standalone_cons_none h.2⟩
+
+/-- **lossy `find_files` against the lossless one.** When the lossy reader stores the
+    conversions of the file's Files paragraphs, it finds the conversion of the very paragraph the
+    lossless reader finds (panics included). (Before fix 546a36f this needed "every Files field
+    splits the same on newlines as on white space".) -/
 theorem C17_lossy_find_files (c : Doc) (cr : Lossy.Copyright) (path : Str)
-    (hfiles : cr.files = (Spec.filesParas c).map convF)
-    (hsplit : ∀ p ∈ Spec.filesParas c,
-      Lossy.deserializeFileList ((p.get kFiles).getD []) = splitWhitespace ((p.get kFiles).getD [])) :
+    (hfiles : cr.files = (Spec.filesParas c).map convF) :
     Lossy.findFiles cr path = (Lossless.findFiles c path).map (·.map convF) := by
   unfold Lossy.findFiles Lossless.findFiles
   have hiter : Lossless.iterFiles c = Spec.filesParas c := rfl
@@ -729,13 +778,12 @@ theorem C17_lossy_find_files (c : Doc) (cr : Lossy.Copyright) (path : Str)
     | ok l => simp [Outcome.map, List.getLast?_map]
   · intro p hp
     obtain ⟨_, f, hf⟩ := mem_filesParas hp
-    have := hsplit p hp
-    simp only [hf, Option.getD_some] at this
-    simp [Lossy.paraMatches, convF, Lossless.paraMatches, Lossless.files, hf, this]
+    simp [Lossy.paraMatches, convF, Lossless.paraMatches, Lossless.files, hf,
+      Lossy.deserializeFileList]
 
-/-- lossy `find_license_by_name` on a well-formed file -/
+/-- lossy `find_license_by_name` when no stand-alone licence field begins with an empty line -/
 theorem lossy_findByName_spec (c : Doc) (cr : Lossy.Copyright) (n : Str)
-    (hwf : Spec.wellFormed c = true) (hlic : cr.licenses = (Spec.standalone c).map convL) :
+    (hname : Spec.licenceNamed c = true) (hlic : cr.licenses = (Spec.standalone c).map convL) :
     Lossy.findLicenseByName cr n =
       (match (Spec.standalone c).find? (fun p => (p.get kLicense).map Spec.firstLine == some n) with
         | none => none
@@ -748,13 +796,16 @@ theorem lossy_findByName_spec (c : Doc) (cr : Lossy.Copyright) (n : Str)
       obtain ⟨_, _, l, hl⟩ := mem_standalone (List.mem_of_find?_eq_some hfind)
       simp [convL, hl]
   · intro p hp
-    obtain ⟨l, hl, hh⟩ := wf_standalone hwf hp
+    obtain ⟨_, _, l, hl⟩ := mem_standalone hp
+    simp only [Spec.licenceNamed, List.all_eq_true, bne_iff_ne, ne_eq] at hname
+    have hh := hname p hp
+    simp only [hl, Option.getD_some] at hh
     simp [convL, hl, ofValue_name hh]
 
 /-- lossy `find_license_for_file`, given what `find_files` returned -/
 theorem lossy_license_of_found (c : Doc) (cr : Lossy.Copyright) (path : Str)
-    (hwf : Spec.wellFormed c = true) (hlic : cr.licenses = (Spec.standalone c).map convL)
-    (o : Option Para) (ho : ∀ fp, o = some fp → fp ∈ Spec.filesParas c)
+    (hname : Spec.licenceNamed c = true) (hlic : cr.licenses = (Spec.standalone c).map convL)
+    (o : Option Para) (ho : ∀ fp, o = some fp → ∃ l, fp.get kLicense = some l)
     (hf : Lossy.findFiles cr path = .ok (o.map convF)) :
     Lossy.findLicenseForFile cr path = .ok (o.bind (Spec.licenseFor c)) := by
   unfold Lossy.findLicenseForFile
@@ -762,59 +813,15 @@ theorem lossy_license_of_found (c : Doc) (cr : Lossy.Copyright) (path : Str)
   cases o with
   | none => rfl
   | some fp =>
-    obtain ⟨f, l, _, hl, _⟩ := wf_files hwf (ho fp rfl)
+    obtain ⟨l, hl⟩ := ho fp rfl
     have hlicense : (convF fp).license = License.ofValue l := by simp [convF, hl]
     simp only [Option.map_some, Option.bind_some, Spec.licenseFor, hl, hlicense, ofValue_text]
     cases ht : Spec.hasText l with
     | true => simp
     | false =>
       simp only [ofValue_noText ht, License.name?, Bool.false_eq_true, if_false]
-      rw [lossy_findByName_spec c cr l hwf hlic]
+      rw [lossy_findByName_spec c cr l hname hlic]
       rfl
-
-
-theorem spec_found_mem {c : Doc} {path : Str} {fp : Para} (h : Spec.findFiles c path = some fp) :
-    fp ∈ Spec.filesParas c := by
-  unfold Spec.findFiles at h
-  exact (List.mem_filter.1 (List.mem_of_getLast? h)).1
-
-/-! ## the licence clause -/
-
-/-- **C17, licence (lossy view — the crate's default `Copyright`).** For a well-formed file the
-    lossy reader accepts, the licence of a file whose Files paragraph is `fp` is `fp`'s own
-    licence when it carries text, otherwise the first stand-alone licence paragraph whose name
-    (first line) is `fp`'s licence name (`Spec.licenseFor`). -/
-theorem C17_license (read : Str → Option Doc) (s : Str) (c : Doc) (cr : Lossy.Copyright)
-    (path : Str) (fp : Para)
-    (hg : gate s = true) (hr : read s = some c) (hwf : Spec.wellFormed c = true)
-    (hfrom : Lossy.fromStr read s = .ok cr) (hfp : fp ∈ Spec.filesParas c)
-    (hfound : Lossy.findFiles cr path = .ok (some (convF fp))) :
-    Lossy.findLicenseForFile cr path = .ok (Spec.licenseFor c fp) := by
-  obtain ⟨cr', h1, _, hlic⟩ := lossy_fromStr_wf read s c hg hr hwf
-  rw [hfrom] at h1
-  cases h1
-  exact lossy_license_of_found c cr path hwf hlic (some fp) (by intro x hx; cases hx; exact hfp) hfound
-
-/-
-  The same statement for the lossless view, at full strength,
-
-    theorem C17_license_lossless (c path fp) (hfound : Lossless.findFiles c path = .ok (some fp)) :
-        Lossless.findLicenseForFile c path = .ok (Spec.licenseFor c fp)
-
-  is FALSE of the code as it exists (finding F-C17-2): `LicenseParagraph::name()`
-  (lossless.rs:392-396) is `None` unless the License value has a second line, so a stand-alone
-  licence paragraph that has only a name is skipped by `find_license_by_name` — see
-  `C17_license_lossless_witness`. What holds is the statement for files in which every
-  stand-alone licence paragraph carries text:
--/
-
-/-- **C17, licence (lossless view), partial**: under the explicit hypothesis that every
-    stand-alone licence paragraph carries text. -/
-theorem C17_license_partial (c : Doc) (path : Str) (fp : Para)
-    (hfound : Lossless.findFiles c path = .ok (some fp))
-    (htext : ∀ p ∈ Spec.standalone c, Spec.hasText ((p.get kLicense).getD []) = true) :
-    Lossless.findLicenseForFile c path = .ok (Spec.licenseFor c fp) :=
-  lossless_license_of_found c path (some fp) hfound htext
 
 /-! ## the machine-readable gate -/
 
@@ -865,66 +872,94 @@ theorem C17_gate_only (s : Str) (h : gate s = true) (read : Str → Option Doc) 
 
 /-! ## lossless view = lossy view -/
 
-/-
-  Full statement (the property's "the lossless and lossy readers give the same answers"):
+/-- a text the deb822 reader rejects is refused alike: ParseError by both readers -/
+theorem C17_parse_error_alike (read : Str → Option Doc) (s : Str) (hg : gate s = true)
+    (hr : read s = none) :
+    Lossless.fromStr read s = .error .parseError ∧ Lossy.fromStr read s = .error .parseError := by
+  simp [Lossless.fromStr, Lossy.fromStr, hg, hr]
 
-    theorem C17_lossless_eq_lossy (read s c path) (hg : gate s = true) (hr : read s = some c)
-        (hwf : Spec.wellFormed c = true) :
-        ∃ cr, Lossy.fromStr read s = .ok cr ∧ Lossless.fromStr read s = .ok c ∧
-          Lossy.findFiles cr path = (Lossless.findFiles c path).map (·.map convF) ∧
-          Lossy.findLicenseForFile cr path = Lossless.findLicenseForFile c path
+/-- the core: once the lossy reader has accepted the text -/
+theorem C17_lossless_eq_lossy_of_accepted (read : Str → Option Doc) (s : Str) (c : Doc)
+    (cr : Lossy.Copyright) (path : Str)
+    (hr : read s = some c) (hacc : Lossy.fromStr read s = .ok cr)
+    (hhdr : Spec.headerOnly c = true) (hname : Spec.licenceNamed c = true) :
+    Lossless.fromStr read s = .ok c ∧
+    Lossy.findFiles cr path = (Lossless.findFiles c path).map (·.map convF) ∧
+    Lossy.findLicenseForFile cr path = Lossless.findLicenseForFile c path := by
+  obtain ⟨hg, hd, rest, rfl, hfiles, hlic, hhas⟩ := lossy_fromStr_inv read s c cr hr hacc
+  obtain ⟨e1, e2⟩ := headerOnly_cons hhdr
+  rw [← e1] at hfiles hhas
+  rw [← e2] at hlic
+  have hff := C17_lossy_find_files (hd :: rest) cr path hfiles
+  refine ⟨by simp [Lossless.fromStr, hg, hr], hff, ?_⟩
+  cases hfind : Lossless.findFiles (hd :: rest) path with
+  | panic site =>
+    rw [hfind] at hff
+    simp [Lossy.findLicenseForFile, Lossless.findLicenseForFile, hff, hfind, Outcome.map]
+  | ok o =>
+    rw [lossless_license_of_found _ path o hfind]
+    apply lossy_license_of_found _ cr path hname hlic o
+    · intro fp hfp
+      subst hfp
+      exact hhas fp (lossless_found_mem hfind)
+    · rw [hff, hfind]; rfl
 
-  It is FALSE of the code as it exists, for two independent reasons:
-    F-C17-1  `lossy::deserialize_file_list` (lossy.rs:41-43) splits the Files field on `\n` only,
-             the lossless `files()` on any whitespace  — `C17_lossless_eq_lossy_witness`;
-    F-C17-2  lossless `LicenseParagraph::name()` needs a second line — `C17_license_lossless_witness`.
-  Each reason is excluded by one explicit hypothesis below (`hsplit`, `htext`).
--/
-
-/-- **C17, lossless = lossy, partial.** On a well-formed file in which (hsplit) every Files field
-    splits the same way on newlines as on whitespace and (htext) every stand-alone licence
-    paragraph carries text, both readers accept the file, the lossy reader finds the conversion
-    of the very Files paragraph the lossless reader finds, and both return the same licence. -/
-theorem C17_lossless_eq_lossy_partial (read : Str → Option Doc) (s : Str) (c : Doc) (path : Str)
-    (hg : gate s = true) (hr : read s = some c) (hwf : Spec.wellFormed c = true)
-    (hsplit : ∀ p ∈ Spec.filesParas c,
-      Lossy.deserializeFileList ((p.get kFiles).getD []) = splitWhitespace ((p.get kFiles).getD []))
-    (htext : ∀ p ∈ Spec.standalone c, Spec.hasText ((p.get kLicense).getD []) = true) :
+/-- **C17, "the lossless and lossy readers give the same answers".** For every text that passes
+    the gate and parses, every path, under three named conditions on the paragraph list —
+      * `hshape`  (`Spec.lossyShape`): header paragraph with Format first, every other paragraph a
+                  Files paragraph with License and Copyright or a stand-alone licence paragraph
+                  — otherwise the lossy reader refuses the file (`C17_needs_shape`);
+      * `hhdr`    (`Spec.headerOnly`): the first paragraph has neither Files nor License
+                  — otherwise the lossless reader also looks the header up (`C17_needs_headerOnly`);
+      * `hname`   (`Spec.licenceNamed`): no stand-alone licence field begins with an empty line
+                  (`C17_needs_licenceNamed`; cannot arise from the deb822 reader) —
+    both readers accept the file, the lossy reader finds the conversion of the very Files
+    paragraph the lossless reader finds, and both return the same licence — panics on invalid
+    escapes and the newline behaviour of `.` included, so neither valid escapes nor a newline-free
+    path is assumed. -/
+theorem C17_lossless_eq_lossy (read : Str → Option Doc) (s : Str) (c : Doc) (path : Str)
+    (hg : gate s = true) (hr : read s = some c)
+    (hshape : Spec.lossyShape c = true) (hhdr : Spec.headerOnly c = true)
+    (hname : Spec.licenceNamed c = true) :
     ∃ cr, Lossy.fromStr read s = .ok cr ∧ Lossless.fromStr read s = .ok c ∧
       Lossy.findFiles cr path = (Lossless.findFiles c path).map (·.map convF) ∧
       Lossy.findLicenseForFile cr path = Lossless.findLicenseForFile c path := by
-  obtain ⟨cr, hfrom, hfiles, hlic⟩ := lossy_fromStr_wf read s c hg hr hwf
-  have hff := C17_lossy_find_files c cr path hfiles hsplit
-  have hspec := C17_find_files_spec c path hwf
-  refine ⟨cr, hfrom, by simp [Lossless.fromStr, hg, hr], hff, ?_⟩
-  rw [lossless_license_of_found c path _ hspec htext]
-  apply lossy_license_of_found c cr path hwf hlic (Spec.findFiles c path)
-  · intro fp hfp; exact spec_found_mem hfp
-  · rw [hff, hspec]; rfl
+  obtain ⟨cr, hacc⟩ := (C17_lossy_accepts_iff read s).2 ⟨hg, c, hr, hshape⟩
+  exact ⟨cr, hacc, C17_lossless_eq_lossy_of_accepted read s c cr path hr hacc hhdr hname⟩
 
-/-- both views, both clauses, against the property's own reading (`Spec`): what is proved about
-    the code without any hypothesis beyond the quantifier's domain is the lossless lookup
-    (`C17_find_files_spec`) and the lossy licence rule (`C17_license`) -/
+/-- **C17, licence (lossy view — the crate's default `Copyright`).** -/
+theorem C17_license_lossy (read : Str → Option Doc) (s : Str) (c : Doc) (cr : Lossy.Copyright)
+    (path : Str) (fp : Para)
+    (hr : read s = some c) (hacc : Lossy.fromStr read s = .ok cr)
+    (hhdr : Spec.headerOnly c = true) (hname : Spec.licenceNamed c = true)
+    (hfound : Lossless.findFiles c path = .ok (some fp)) :
+    Lossy.findFiles cr path = .ok (some (convF fp)) ∧
+    Lossy.findLicenseForFile cr path = .ok (Spec.licenseFor c fp) := by
+  obtain ⟨_, hff, hl⟩ := C17_lossless_eq_lossy_of_accepted read s c cr path hr hacc hhdr hname
+  exact ⟨by rw [hff, hfound]; rfl, by rw [hl, C17_license c path fp hfound]⟩
+
+/-- **everything against the property's own reading.** On a well-formed file (`Spec.wellFormed`:
+    the three conditions above and valid escapes) both readers accept the text, both find
+    `Spec.findFiles` — the last Files paragraph one of whose patterns matches — and both return
+    `Spec.findLicenseForFile`. -/
 theorem C17_both_spec (read : Str → Option Doc) (s : Str) (c : Doc) (path : Str)
-    (hg : gate s = true) (hr : read s = some c) (hwf : Spec.wellFormed c = true)
-    (hsplit : ∀ p ∈ Spec.filesParas c,
-      Lossy.deserializeFileList ((p.get kFiles).getD []) = splitWhitespace ((p.get kFiles).getD []))
-    (htext : ∀ p ∈ Spec.standalone c, Spec.hasText ((p.get kLicense).getD []) = true) :
+    (hg : gate s = true) (hr : read s = some c) (hwf : Spec.wellFormed c = true) :
+    Lossless.fromStr read s = .ok c ∧
     Lossless.findFiles c path = .ok (Spec.findFiles c path) ∧
     Lossless.findLicenseForFile c path = .ok (Spec.findLicenseForFile c path) ∧
     ∃ cr, Lossy.fromStr read s = .ok cr ∧
       Lossy.findFiles cr path = .ok ((Spec.findFiles c path).map convF) ∧
       Lossy.findLicenseForFile cr path = .ok (Spec.findLicenseForFile c path) := by
-  obtain ⟨cr, hfrom, _, hff, hlic⟩ := C17_lossless_eq_lossy_partial read s c path hg hr hwf hsplit htext
-  have hspec := C17_find_files_spec c path hwf
-  have hl := lossless_license_of_found c path _ hspec htext
-  refine ⟨hspec, hl, cr, hfrom, ?_, ?_⟩
+  obtain ⟨hshape, hhdr, hname, hv⟩ := wf_parts hwf
+  obtain ⟨cr, hfrom, hll, hff, hlic⟩ := C17_lossless_eq_lossy read s c path hg hr hshape hhdr hname
+  have hspec := C17_find_files_spec c path hv
+  have hl := lossless_license_of_found c path _ hspec
+  refine ⟨hll, hspec, hl, cr, hfrom, ?_, ?_⟩
   · rw [hff, hspec]; rfl
   · rw [hlic, hl]; rfl
 
-
-/-! ## witnesses of the excluded cases (`decide +kernel` on the model; the same inputs are run
-    against the real crate on every check — corpus/C17/witness.req) -/
+/-! ## witnesses (`decide +kernel` on the model; the same inputs are run against the real crate on
+    every check — corpus/C17/witness.req) -/
 
 def hdr : Para := [(kFormat, "x".toList)]
 def fpara (files lic : String) : Para :=
@@ -939,24 +974,66 @@ def lossyAnswer (c : Doc) (s path : Str) : Option Answer :=
   | .ok cr => some (Lossy.answer cr path)
   | .error _ => none
 
+/-! ### each named hypothesis of `C17_lossless_eq_lossy` is needed -/
+
+/-- **`hshape` cannot be dropped**: a Files paragraph without Copyright (header only, licences
+    named) — the lossless reader answers, the lossy reader refuses the file; likewise a paragraph
+    that is neither. -/
+theorem C17_needs_shape :
+    (let c : Doc := [hdr, [(kFiles, "*".toList), (kLicense, "MIT".toList)]]
+     Spec.lossyShape c = false ∧ Spec.headerOnly c = true ∧ Spec.licenceNamed c = true ∧
+     Lossless.answer c "a".toList = ⟨.ok (some 0), .ok none⟩ ∧
+     lossyAnswer c wText "a".toList = none) ∧
+    (let c : Doc := [hdr, [(kComment, "x".toList)]]
+     Spec.lossyShape c = false ∧ Spec.headerOnly c = true ∧ Spec.licenceNamed c = true ∧
+     Lossless.answer c "a".toList = ⟨.ok none, .ok none⟩ ∧
+     Lossy.fromStr (fun _ => some c) wText
+       = .error (.msg "Paragraph is neither License nor Files".toList)) := by
+  decide +kernel
+
+/-- **`hhdr` cannot be dropped**: a first paragraph that also has a `Files` field is a Files
+    paragraph for the lossless view and only a header for the lossy view; a first paragraph with
+    `License` + text is a stand-alone licence paragraph for the lossless view only. -/
+theorem C17_needs_headerOnly :
+    (let c : Doc := [[(kFormat, "x".toList), (kFiles, "*".toList), (kCopyright, "c".toList),
+                      (kLicense, "MIT".toList)]]
+     Spec.lossyShape c = true ∧ Spec.headerOnly c = false ∧ Spec.licenceNamed c = true ∧
+     Lossless.answer c "a".toList = ⟨.ok (some 0), .ok none⟩ ∧
+     lossyAnswer c wText "a".toList = some ⟨.ok none, .ok none⟩) ∧
+    (let c : Doc := [[(kFormat, "x".toList), (kLicense, "MIT\ntext".toList)], fpara "*" "MIT"]
+     Spec.lossyShape c = true ∧ Spec.headerOnly c = false ∧ Spec.licenceNamed c = true ∧
+     Lossless.answer c "a".toList = ⟨.ok (some 0), .ok (some (.named "MIT".toList "text".toList))⟩ ∧
+     lossyAnswer c wText "a".toList = some ⟨.ok (some 0), .ok none⟩) := by
+  decide +kernel
+
+/-- **`hname` cannot be dropped** (on abstract paragraph lists): a stand-alone licence field that
+    begins with an empty line has the name "" for the lossless view and no name for the lossy
+    view; an empty `License:` in a Files paragraph looks it up. -/
+theorem C17_needs_licenceNamed :
+    let c : Doc := [hdr, fpara "*" "", lpara "\ntext"]
+    Spec.lossyShape c = true ∧ Spec.headerOnly c = true ∧ Spec.licenceNamed c = false ∧
+    Lossless.answer c "a".toList = ⟨.ok (some 0), .ok (some (.text "text".toList))⟩ ∧
+    lossyAnswer c wText "a".toList = some ⟨.ok (some 0), .ok none⟩ := by
+  decide +kernel
+
+/-! ### the two repaired findings, as regression statements -/
+
 /-- `Files: a/* b/*` -/
 def w1 : Doc := [hdr, fpara "a/* b/*" "MIT"]
 /-- `Files: a b` -/
 def w1b : Doc := [hdr, fpara "a b" "MIT"]
 
-/-- **witness for the hypothesis `hsplit` (finding F-C17-1).** `Files: a/* b/*` is well-formed;
-    for `a/x` the lossless reader (and the property) answer "paragraph 0", the lossy reader
-    "none" — and with `Files: a b` the lossy reader finds a paragraph for the path `a b` that
-    matches no pattern. -/
-theorem C17_lossless_eq_lossy_witness :
-    gate wText = true ∧ Spec.wellFormed w1 = true ∧
+/-- **F-C17-1 (fixed in 546a36f).** `Files: a/* b/*`: the lossy reader now finds the paragraph for
+    `a/x` like the lossless reader and the property; `Files: a b` no longer matches the path `a b`. -/
+theorem C17_fixed_F1 :
+    Spec.wellFormed w1 = true ∧
     Spec.answer w1 "a/x".toList = ⟨.ok (some 0), .ok none⟩ ∧
     Lossless.answer w1 "a/x".toList = ⟨.ok (some 0), .ok none⟩ ∧
-    lossyAnswer w1 wText "a/x".toList = some ⟨.ok none, .ok none⟩ ∧
+    lossyAnswer w1 wText "a/x".toList = some ⟨.ok (some 0), .ok none⟩ ∧
     Spec.wellFormed w1b = true ∧
     Spec.answer w1b "a b".toList = ⟨.ok none, .ok none⟩ ∧
     Lossless.answer w1b "a b".toList = ⟨.ok none, .ok none⟩ ∧
-    lossyAnswer w1b wText "a b".toList = some ⟨.ok (some 0), .ok none⟩ := by
+    lossyAnswer w1b wText "a b".toList = some ⟨.ok none, .ok none⟩ := by
   decide +kernel
 
 /-- `License: MIT` alone in a paragraph -/
@@ -964,20 +1041,19 @@ def w2 : Doc := [hdr, fpara "*" "MIT", lpara "MIT"]
 /-- the same followed by a second `MIT` paragraph that has a text -/
 def w2b : Doc := [hdr, fpara "*" "MIT", lpara "MIT", lpara "MIT\nsecond"]
 
-/-- **witness for the hypothesis `htext` (finding F-C17-2).** A stand-alone licence paragraph
-    with only a name is the first paragraph of that name; the lossy reader returns it, the
-    lossless reader returns nothing — or, if a later paragraph of the same name has a text, that
-    later one ("first … with the same name" violated). -/
-theorem C17_license_lossless_witness :
+/-- **F-C17-2 (fixed in d2a6901).** A stand-alone licence paragraph with only a name is found by
+    the lossless reader too, and it is the *first* of that name that is returned. -/
+theorem C17_fixed_F2 :
     Spec.wellFormed w2 = true ∧
-    Lossless.findFiles w2 "a".toList = .ok (some (fpara "*" "MIT")) ∧
     Spec.licenseFor w2 (fpara "*" "MIT") = some (.name "MIT".toList) ∧
-    Lossless.findLicenseForFile w2 "a".toList = .ok none ∧
+    Lossless.findLicenseForFile w2 "a".toList = .ok (some (.name "MIT".toList)) ∧
     lossyAnswer w2 wText "a".toList = some ⟨.ok (some 0), .ok (some (.name "MIT".toList))⟩ ∧
     Spec.wellFormed w2b = true ∧
-    Spec.licenseFor w2b (fpara "*" "MIT") = some (.name "MIT".toList) ∧
-    Lossless.findLicenseForFile w2b "a".toList = .ok (some (.named "MIT".toList "second".toList)) := by
+    Lossless.findLicenseForFile w2b "a".toList = .ok (some (.name "MIT".toList)) ∧
+    lossyAnswer w2b wText "a".toList = some ⟨.ok (some 0), .ok (some (.name "MIT".toList))⟩ := by
   decide +kernel
+
+/-! ### the side conditions of the glob clause -/
 
 /-- **the `\n` side condition of `C17_glob` is needed**: `.` of the regex crate does not match a
     newline, so `*` does not match a path containing one, although the declarative `*` does.
@@ -996,42 +1072,19 @@ theorem C17_glob_panic_witness :
       = .panic "invalid escape sequence: \\y" := by
   decide +kernel
 
-/-! ### observations outside the property's quantifier (model = code, checked by the harness) -/
-
-/-- a header paragraph that itself has a `Files` field is a Files paragraph for the lossless view
-    (`iter_files` runs over every paragraph) and only a header for the lossy view -/
-example :
-    let c : Doc := [[(kFormat, "x".toList), (kFiles, "*".toList), (kCopyright, "c".toList), (kLicense, "MIT".toList)]]
-    Lossless.answer c "a".toList = ⟨.ok (some 0), .ok none⟩ ∧
-    lossyAnswer c wText "a".toList = some ⟨.ok none, .ok none⟩ := by decide +kernel
-
-/-- a header `License` with text is a stand-alone licence paragraph for the lossless view only -/
-example :
-    let c : Doc := [[(kFormat, "x".toList), (kLicense, "MIT\ntext".toList)], fpara "*" "MIT"]
-    Lossless.answer c "a".toList = ⟨.ok (some 0), .ok (some (.named "MIT".toList "text".toList))⟩ ∧
-    lossyAnswer c wText "a".toList = some ⟨.ok (some 0), .ok none⟩ := by decide +kernel
-
-/-- an empty `Files` field: no pattern for the lossless view, the empty pattern (matching the empty
-    path) for the lossy view -/
+/-- an empty `Files` field (no pattern at all) is no longer a difference: neither view matches -/
 example :
     let c : Doc := [hdr, fpara "" "MIT"]
     Lossless.answer c [] = ⟨.ok none, .ok none⟩ ∧
-    lossyAnswer c wText [] = some ⟨.ok (some 0), .ok none⟩ := by decide +kernel
-
-/-- the lossy reader refuses what the lossless reader accepts: a Files paragraph without
-    Copyright, a paragraph that is neither -/
-example :
-    lossyAnswer [hdr, [(kFiles, "*".toList), (kLicense, "MIT".toList)]] wText "a".toList = none ∧
-    Lossy.fromStr (fun _ => some [hdr, [(kComment, "x".toList)]]) wText
-      = .error (.msg "Paragraph is neither License nor Files".toList) := by decide +kernel
+    lossyAnswer c wText [] = some ⟨.ok none, .ok none⟩ := by decide +kernel
 
 /-! ## non-vacuity: the hypotheses of every theorem above are satisfiable, and the theorems fire -/
 
-/-- header; `Files: *` (MIT); `License: MIT` + text; `Files: a/*⏎ b/*` (GPL + inline text);
-    `Files: a/b` (MIT); a second `License: MIT` + other text -/
+/-- header; `Files: *` (MIT); `License: MIT` + text; `Files: a/*⏎ b/* c/d` (GPL + inline text);
+    `Files: a/b` (MIT); a second `License: MIT` + other text; `License: BSD` (name only) -/
 def exDoc : Doc :=
-  [hdr, fpara "*" "MIT", lpara "MIT\ntext", fpara "a/*\nb/*" "GPL\ninline", fpara "a/b" "MIT",
-   lpara "MIT\nsecond"]
+  [hdr, fpara "*" "MIT", lpara "MIT\ntext", fpara "a/*\nb/* c/d" "GPL\ninline", fpara "a/b" "MIT",
+   lpara "MIT\nsecond", lpara "BSD"]
 
 def exCr : Lossy.Copyright where
   header := { format := "x".toList, filesExcluded := none, source := none, upstreamContact := none }
@@ -1039,11 +1092,10 @@ def exCr : Lossy.Copyright where
   licenses := (Spec.standalone exDoc).map convL
 
 theorem exDoc_wf : Spec.wellFormed exDoc = true := by decide +kernel
-theorem exDoc_split : ∀ p ∈ Spec.filesParas exDoc,
-    Lossy.deserializeFileList ((p.get kFiles).getD []) = splitWhitespace ((p.get kFiles).getD []) := by
-  decide +kernel
-theorem exDoc_text : ∀ p ∈ Spec.standalone exDoc, Spec.hasText ((p.get kLicense).getD []) = true := by
-  decide +kernel
+theorem exDoc_shape : Spec.lossyShape exDoc = true := by decide +kernel
+theorem exDoc_hdr : Spec.headerOnly exDoc = true := by decide +kernel
+theorem exDoc_named : Spec.licenceNamed exDoc = true := by decide +kernel
+theorem exDoc_valid : Spec.patternsValid exDoc = true := by decide +kernel
 theorem exDoc_lossy : Lossy.fromStr (fun _ => some exDoc) wText = .ok exCr := by decide +kernel
 
 -- C17_glob: hypotheses hold for a pattern using every construct, and the theorem yields a match
@@ -1054,19 +1106,19 @@ example : ¬ Matches "*.rs".toList "foo.rs.bak".toList := fun h =>
   absurd ((C17_glob "*.rs".toList "foo.rs.bak".toList (by decide +kernel) (by decide +kernel)).2 h) (by decide +kernel)
 
 -- C17_matches_any / C17_matches_total
-example : ∃ g ∈ splitWhitespace "a/*\nb/*".toList, Matches g "b/x".toList :=
-  (C17_matches_any (fpara "a/*\nb/*" "GPL") _ "b/x".toList rfl (by decide +kernel) (by decide +kernel)).1
+example : ∃ g ∈ splitWhitespace "a/*\nb/* c/d".toList, Matches g "c/d".toList :=
+  (C17_matches_any (fpara "a/*\nb/* c/d" "GPL") _ "c/d".toList rfl (by decide +kernel) (by decide +kernel)).1
     (by decide +kernel)
 
 -- C17_matches_any_lossy
-example : ∃ g ∈ (convF (fpara "a/*\nb/*" "GPL")).files, Matches g "b/x".toList :=
-  (C17_matches_any_lossy _ "b/x".toList (by decide +kernel) (by decide +kernel)).1 (by decide +kernel)
+example : ∃ g ∈ (convF (fpara "a/*\nb/* c/d" "GPL")).files, Matches g "c/d".toList :=
+  (C17_matches_any_lossy _ "c/d".toList (by decide +kernel) (by decide +kernel)).1 (by decide +kernel)
 
 -- C17_last_wins: three Files paragraphs match `a/b`; the last one is returned
 example : Lossless.findFiles exDoc "a/b".toList = .ok (some (fpara "a/b" "MIT")) := by
   rw [C17_last_wins exDoc _ (fun fp hfp => by
-    obtain ⟨f, _, hf, _, hv⟩ := wf_files exDoc_wf hfp
-    exact ⟨_, C17_matches_total fp f _ hf hv⟩)]
+    obtain ⟨_, f, hf⟩ := mem_filesParas hfp
+    exact ⟨_, C17_matches_total fp f _ hf (patternsValid_mem exDoc_valid hfp hf)⟩)]
   decide +kernel
 
 -- C17_last_wins_lossy
@@ -1074,53 +1126,71 @@ example : Lossy.findFiles exCr "a/b".toList = .ok (some (convF (fpara "a/b" "MIT
   rw [C17_last_wins_lossy exCr _ (by decide +kernel)]
   decide +kernel
 
--- C17_find_files_spec / C17_spec_matches
-example : Lossless.findFiles exDoc "b/q".toList = .ok (some (fpara "a/*\nb/*" "GPL\ninline")) := by
-  rw [C17_find_files_spec exDoc _ exDoc_wf]; decide +kernel
+-- C17_find_files_spec
+example : Lossless.findFiles exDoc "b/q".toList = .ok (some (fpara "a/*\nb/* c/d" "GPL\ninline")) := by
+  rw [C17_find_files_spec exDoc _ exDoc_valid]; decide +kernel
 
 -- C17_spec_matches: its hypotheses hold for `exDoc` and it yields the declarative statement
-example : ∃ g ∈ Spec.patterns (fpara "a/*\nb/*" "GPL\ninline"), Matches g "b/q".toList :=
-  (C17_spec_matches exDoc "b/q".toList exDoc_wf (by decide +kernel) _ (by decide +kernel)).1
+example : ∃ g ∈ Spec.patterns (fpara "a/*\nb/* c/d" "GPL\ninline"), Matches g "b/q".toList :=
+  (C17_spec_matches exDoc "b/q".toList exDoc_valid (by decide +kernel) _ (by decide +kernel)).1
     (by decide +kernel)
 
--- C17_lossy_find_files: `exCr` stores the conversions, every Files field of `exDoc` splits alike
+-- C17_lossy_find_files
 example : Lossy.findFiles exCr "b/q".toList
-    = .ok (some (convF (fpara "a/*\nb/*" "GPL\ninline"))) := by
-  rw [C17_lossy_find_files exDoc exCr _ rfl exDoc_split, C17_find_files_spec exDoc _ exDoc_wf]
+    = .ok (some (convF (fpara "a/*\nb/* c/d" "GPL\ninline"))) := by
+  rw [C17_lossy_find_files exDoc exCr _ rfl, C17_find_files_spec exDoc _ exDoc_valid]
   decide +kernel
 
--- C17_both_spec
+-- C17_license (lossless): the Files paragraph found has a name-only licence; the first of the
+-- two stand-alone `MIT` paragraphs is returned
 example : Lossless.findLicenseForFile exDoc "a/b".toList
     = .ok (some (.named "MIT".toList "text".toList)) := by
-  rw [(C17_both_spec (fun _ => some exDoc) wText exDoc "a/b".toList (by decide +kernel) rfl exDoc_wf
-    exDoc_split exDoc_text).2.1]
+  rw [C17_license exDoc "a/b".toList (fpara "a/b" "MIT") (by decide +kernel)]
   decide +kernel
 
--- C17_license: the Files paragraph found has a name-only licence; the first of the two
--- stand-alone `MIT` paragraphs is returned
+-- C17_license: own licence with text
+example : Lossless.findLicenseForFile exDoc "c/d".toList
+    = .ok (some (.named "GPL".toList "inline".toList)) := by
+  rw [C17_license exDoc "c/d".toList (fpara "a/*\nb/* c/d" "GPL\ninline") (by decide +kernel)]
+  decide +kernel
+
+-- C17_license_lossy
 example : Lossy.findLicenseForFile exCr "a/b".toList
     = .ok (some (.named "MIT".toList "text".toList)) := by
-  rw [C17_license (fun _ => some exDoc) wText exDoc exCr "a/b".toList (fpara "a/b" "MIT")
-    (by decide +kernel) rfl exDoc_wf exDoc_lossy (by decide +kernel) (by decide +kernel)]
+  rw [(C17_license_lossy (fun _ => some exDoc) wText exDoc exCr "a/b".toList (fpara "a/b" "MIT")
+    rfl exDoc_lossy exDoc_hdr exDoc_named (by decide +kernel)).2]
   decide +kernel
 
--- C17_license_partial: own licence with text
-example : Lossless.findLicenseForFile exDoc "b/q".toList
-    = .ok (some (.named "GPL".toList "inline".toList)) := by
-  rw [C17_license_partial exDoc "b/q".toList (fpara "a/*\nb/*" "GPL\ninline") (by decide +kernel)
-    exDoc_text]
-  decide +kernel
+-- C17_lossy_accepts_iff
+example : ∃ cr, Lossy.fromStr (fun _ => some exDoc) wText = .ok cr :=
+  (C17_lossy_accepts_iff _ wText).2 ⟨by decide +kernel, exDoc, rfl, exDoc_shape⟩
+
+-- C17_parse_error_alike: hypotheses satisfiable (a reader that rejects everything)
+example : Lossy.fromStr (fun _ => none) wText = .error .parseError :=
+  (C17_parse_error_alike (fun _ => none) wText (by decide +kernel) rfl).2
 
 -- C17_gate / C17_gate_only / C17_gate_exact
 example : gate "\nFormat: x\n".toList = false ∧ gate "format: x".toList = false ∧
     gate "Format".toList = false ∧ gate "# c\nFormat: x".toList = false ∧
     gate "Format:".toList = true ∧ gate "Format:x".toList = true := by decide +kernel
 
--- C17_lossless_eq_lossy_partial / C17_both_spec: all hypotheses hold for `exDoc`
+-- C17_lossless_eq_lossy: the three named hypotheses hold for `exDoc`
 example : ∃ cr, Lossy.fromStr (fun _ => some exDoc) wText = .ok cr ∧
     Lossless.fromStr (fun _ => some exDoc) wText = .ok exDoc ∧
     Lossy.findFiles cr "a/b".toList = (Lossless.findFiles exDoc "a/b".toList).map (·.map convF) ∧
     Lossy.findLicenseForFile cr "a/b".toList = Lossless.findLicenseForFile exDoc "a/b".toList :=
-  C17_lossless_eq_lossy_partial _ wText exDoc _ (by decide +kernel) rfl exDoc_wf exDoc_split exDoc_text
+  C17_lossless_eq_lossy _ wText exDoc _ (by decide +kernel) rfl exDoc_shape exDoc_hdr exDoc_named
+
+-- C17_lossless_eq_lossy_of_accepted
+example : Lossy.findLicenseForFile exCr "q".toList = Lossless.findLicenseForFile exDoc "q".toList :=
+  (C17_lossless_eq_lossy_of_accepted (fun _ => some exDoc) wText exDoc exCr _ rfl exDoc_lossy
+    exDoc_hdr exDoc_named).2.2
+
+-- C17_both_spec
+example : Lossless.findLicenseForFile exDoc "a/b".toList
+    = .ok (some (.named "MIT".toList "text".toList)) := by
+  rw [(C17_both_spec (fun _ => some exDoc) wText exDoc "a/b".toList (by decide +kernel) rfl
+    exDoc_wf).2.2.1]
+  decide +kernel
 
 end Deb822Verif.Props.C17
